@@ -141,3 +141,54 @@ theorem C16_stage1_forward (raw : RawItem) (segs : List Seg) (out : Toks)
         hsplit _ _, h.symm⟩
 
 end DW
+
+namespace DW
+
+/-- The attribute is a `#[derive_where(crate ..)]` option attribute (a single meta named `crate`). -/
+def RawAttr.IsCrateOpt (a : RawAttr) : Prop :=
+  ∃ b m, a = .dw b ∧ b.parseNonEmpty = .ok [m] ∧ m.getPath.isIdent "crate" = true
+
+theorem findCrate_skip (a : RawAttr) (rest : List RawAttr) (acc : Option MPath) (h : ¬ a.IsCrateOpt) :
+    findCrate (a :: rest) acc = findCrate rest acc := by
+  cases a with
+  | dw b =>
+    simp only [findCrate]
+    cases hp : b.parseNonEmpty with
+    | error e => rfl
+    | ok ms =>
+      match ms with
+      | [] => rfl
+      | [m] =>
+        simp only
+        split
+        · rename_i hc; exact absurd ⟨b, m, rfl, hp, hc⟩ h
+        · rfl
+      | _ :: _ :: _ => rfl
+  | dwQualified _ _ => rfl
+  | repr _ => rfl
+  | bare _ => rfl
+  | other => rfl
+
+theorem findCrate_skip_all (pre rest : List RawAttr) (acc : Option MPath) (h : ∀ a ∈ pre, ¬ a.IsCrateOpt) :
+    findCrate (pre ++ rest) acc = findCrate rest acc := by
+  induction pre with
+  | nil => rfl
+  | cons a pre ih =>
+    rw [List.cons_append, findCrate_skip a _ acc (h a (by simp))]
+    exact ih (fun x hx => h x (by simp [hx]))
+
+/-- **The `crate = path` option is found wherever it stands** among the item's attributes (before or after
+attributes with bound lists, `#[repr]`, foreign attributes ..), and it then is the root of the paths of the
+forwarded derive and of the visited marker. -/
+theorem C14_crate_anywhere (pre post : List RawAttr) (b : DWBody) (cp p : MPath) (v : NVal)
+    (hb : b.parseNonEmpty = .ok [.nameValue cp v]) (hcp : cp.isIdent "crate" = true)
+    (hv : v = .path p ∨ v = .strPath p) (hp : p ≠ dwRoot)
+    (hpre : ∀ a ∈ pre, ¬ a.IsCrateOpt) (hpost : ∀ a ∈ post, ¬ a.IsCrateOpt) :
+    findCrate (pre ++ .dw b :: post) none = .ok (some p) := by
+  rw [findCrate_skip_all pre _ none hpre]
+  have hpost' : findCrate post (some p) = .ok (some p) := by
+    have := findCrate_skip_all post [] (some p) hpost
+    simpa [findCrate] using this
+  rcases hv with rfl | rfl <;> simp [findCrate, hb, Meta.getPath, hcp, hp, hpost']
+
+end DW
